@@ -491,7 +491,7 @@ fn check_in_position(pos: &str, s: &str, rec: &mut Recorder) {
 /// Positions in which the formatter must print the literal as `PrettyDecimal` prints it (value,
 /// decimals and grouping kept): the eight positions above plus a bare factor inside a
 /// parenthesised expression and a bare balance assertion.
-const PRINT_POSITIONS: &[&str] = &["amount", "rate-cost", "total-cost", "lot-rate", "lot-total", "assertion", "format", "bare-factor", "bare-divisor", "bare-assertion", "expr-term"];
+const PRINT_POSITIONS: &[&str] = &["amount", "rate-cost", "total-cost", "lot-rate", "lot-total", "assertion", "format", "bare-factor", "bare-divisor", "bare-assertion", "expr-term", "after-format-declaration", "cost-after-format-declaration"];
 
 fn print_position_text(pos: &str, s: &str) -> String {
     match pos {
@@ -499,6 +499,10 @@ fn print_position_text(pos: &str, s: &str) -> String {
         "bare-divisor" => format!("2024/01/01 p\n    A    (7 USD / {})\n    B\n", s),
         "bare-assertion" => format!("2024/01/01 p\n    A    3 USD = {}\n    B\n", s),
         "expr-term" => format!("2024/01/01 p\n    A    (3 USD + {} USD)\n    B\n", s),
+        // a `format` declared earlier in the file is a report setting: the formatter still prints
+        // the literal with the decimals it was written with
+        "after-format-declaration" => format!("commodity USD\n    format 1,000.0000 USD\n\n2024/01/01 p\n    A    {} USD\n    B\n", s),
+        "cost-after-format-declaration" => format!("commodity EUR\n    format 1,000.000 EUR\n\n2024/01/01 p\n    A    3 USD @ {} EUR\n    B\n", s),
         _ => in_position_text(pos, s),
     }
 }
